@@ -144,30 +144,43 @@ def r2_copy_branches(chk):
         key = f"{init.key}:copies-{cont}"
         # any statement in __init__ that moves other.<acc> (or ._cont) into self.<acc>/<cont>, under the type test
         src_names = {"other", "pm"}
-        arm = _copy_arm(init.node, ci.name)
+        from ..canon import path_conditions
+
         flows = []
         asg = assignments(init.node)
-        scope = arm["body"] if arm else []
-        var = arm["var"] if arm else None
+        order = {id(n): i for i, n in enumerate(walk_no_nested(init.node))}
 
-        def mentions_src(e):
+        def copy_var(s):
+            """the variable known to be an instance of this class wherever statement s runs (type test / case arm / guard clause)"""
+            for c in path_conditions(init.node, s):
+                if isinstance(c, ast.Call) and call_name(c) == "isinstance" and len(c.args) == 2 and norm(c.args[1]) == ci.name:
+                    return norm(c.args[0])
+            return None
+
+        def mentions_src(e, var):
             for n in ast.walk(e):
                 d = dotted(n) if isinstance(n, ast.Attribute) else None
                 if d and var and d.split(".")[0] == var and d.split(".")[1] in (acc, cont):
                     return True
             return False
 
-        for b in scope:
-            for s in walk_no_nested(b):
-                if isinstance(s, ast.Assign) and ({f"self.{cont}", f"self.{acc}"} & stored_paths(s)):
-                    if mentions_src(s.value):
-                        flows.append(("direct", s))
-                if isinstance(s, ast.Assign) and isinstance(s.targets[0], ast.Name) and mentions_src(s.value):
-                    # through a local that is later stored (Molecule: atomic_charges = other.atomic_charges; self.atomic_charges = atomic_charges)
-                    nm = s.targets[0].id
-                    for t in walk_no_nested(init.node):
-                        if isinstance(t, ast.Assign) and ({f"self.{cont}", f"self.{acc}"} & stored_paths(t)) and nm in names_in(t.value) and t.lineno > s.lineno:
-                            flows.append(("via-local", t))
+        stores = [t for t in walk_no_nested(init.node) if isinstance(t, ast.Assign) and ({f"self.{cont}", f"self.{acc}"} & stored_paths(t))]
+        arm = None
+        for s in walk_no_nested(init.node):
+            if not isinstance(s, ast.Assign):
+                continue
+            var = copy_var(s)
+            if var is None or not mentions_src(s.value, var):
+                continue
+            arm = True
+            if any(s is t for t in stores):
+                flows.append(("direct", s))
+            elif isinstance(s.targets[0], ast.Name):
+                # through a local that is later stored (Molecule: atomic_charges = other.atomic_charges; self.atomic_charges = atomic_charges)
+                nm = s.targets[0].id
+                for t in stores:
+                    if nm in names_in(t.value) and order[id(t)] > order[id(s)]:
+                        flows.append(("via-local", t))
         if not arm or not flows:
             chk.fail("C06.R2", key, init.where(),
                      f"{ci.name}.__init__ has no flow from the source's {acc} into its own {cont} when copy-constructing: {ci.name}(m).{acc} "
